@@ -132,7 +132,7 @@ def run_bounded(pid, tier, seed, workers):
 
 # ------------------------------------------------------------------------ replay ------------
 def write_replay(pid, name, payload):
-    d = os.path.join(VERIF, 'replays', pid)
+    d = os.path.join(VERIF, 'replays' if not os.environ.get('VERIF_SELFTEST') else 'replays/selftest', pid)
     os.makedirs(d, exist_ok=True)
     safe = ''.join(c if c.isalnum() or c in '._-' else '_' for c in name)[:120]
     h = hashlib.sha1(name.encode()).hexdigest()[:8]
@@ -209,9 +209,58 @@ def self_check():
     return 0 if ok else 3
 
 
+def selftest(only=None):
+    """Mutation self-test: every confirmed seeded change under /verif/seeded is applied to a scratch
+    copy of /repo's HEAD (outside /repo and /verif, removed afterwards) and the property's quick
+    check must report a violation there; the unmodified copy must pass."""
+    import glob
+    import shutil
+    base = tempfile.mkdtemp(prefix='verif-selftest-', dir=os.environ.get('TMPDIR', '/var/tmp'))
+    missed = []
+    ran = 0
+    try:
+        for meta_path in sorted(glob.glob(os.path.join(VERIF, 'seeded', '*', 'meta.json'))):
+            meta = json.load(open(meta_path))
+            if not meta.get('confirmed'):
+                continue
+            pid = meta['property']
+            if only and pid != only:
+                continue
+            d = os.path.join(base, meta['seed'])
+            os.makedirs(d)
+            subprocess.run('git -C %s archive HEAD | tar -x -C %s' % (REPO, d), shell=True, check=True)
+            p = subprocess.run(['git', 'apply', os.path.join(os.path.dirname(meta_path), 'patch.diff')], cwd=d,
+                               capture_output=True, text=True)
+            if p.returncode != 0:
+                p = subprocess.run(['patch', '-p1', '-s', '-i', os.path.join(os.path.dirname(meta_path), 'patch.diff')], cwd=d,
+                                   capture_output=True, text=True)
+            if p.returncode != 0:
+                print('SELFTEST %s: patch no longer applies to HEAD (skipped)' % meta['seed'])
+                shutil.rmtree(d)
+                continue
+            env = dict(os.environ)
+            env['VERIF_REPO'] = d
+            env['VERIF_SELFTEST'] = '1'
+            r = subprocess.run([os.path.join(VERIF, 'check'), pid, '--tier', 'quick'], cwd=VERIF, env=env,
+                               capture_output=True, text=True)
+            ran += 1
+            vio = [l for l in r.stdout.splitlines() if l.startswith('VIOLATION')]
+            named = [l for l in vio if 'obligation=' in l]
+            print('SELFTEST %s: exit=%d, %d violation line(s), %d by a named obligation' % (meta['seed'], r.returncode, len(vio), len(named)))
+            if r.returncode != 1:
+                missed.append(meta['seed'])
+            shutil.rmtree(d)
+    finally:
+        shutil.rmtree(base, ignore_errors=True)
+    print('SELFTEST: %d seeded changes run, %d not detected: %s' % (ran, len(missed), missed))
+    return 0 if not missed else 2
+
+
 def main():
     if len(sys.argv) > 1 and sys.argv[1] == '--self-check':
         return self_check()
+    if len(sys.argv) > 1 and sys.argv[1] == '--selftest':
+        return selftest(sys.argv[2] if len(sys.argv) > 2 else None)
     ap = argparse.ArgumentParser()
     ap.add_argument('prop')
     ap.add_argument('--tier', default=None)
@@ -358,8 +407,10 @@ def main():
         'violations': len(violations),
         'known_findings_reported': len(known_lines),
     }
-    os.makedirs(os.path.join(VERIF, 'evidence'), exist_ok=True)
-    with open(os.path.join(VERIF, 'evidence', pid + '.json'), 'w') as f:
+    evdir = os.path.join(VERIF, 'evidence') if not os.environ.get('VERIF_SELFTEST') else \
+        tempfile.mkdtemp(prefix='verif-selftest-ev-', dir=os.environ.get('TMPDIR', '/var/tmp'))
+    os.makedirs(evdir, exist_ok=True)
+    with open(os.path.join(evdir, pid + '.json'), 'w') as f:
         json.dump(ev, f, indent=1, default=repr)
 
     print('%s tier=%s: %d obligations, %d discharged, %d refuted, %d undecided; bounded: %s evaluations, %d failing (%d known); %.1fs' % (
